@@ -212,6 +212,22 @@ pub fn family_ep_defects(out: &mut Vec<Desc>) {
             }
         }
     }
+    // a consistent-looking pawn structure (enemy pawn in front, empty origin behind) around an en-passant square on EVERY
+    // rank, for either side to move: only the sixth rank with White to move / the third with Black is valid
+    for e in 8..56usize {
+        for stm in [b'w', b'b'] {
+            let (victim, origin, pawn) = if stm == b'w' { (e - 8, e + 8, b'p') } else { (e + 8, e - 8, b'P') };
+            let mut d = Desc::empty();
+            d.stm = stm;
+            d.ep = Some(e as u8);
+            d.pl[victim] = pawn;
+            let _ = origin;
+            for (k, c) in [(b'K', [0usize, 7, 56, 63]), (b'k', [63usize, 56, 7, 0])] {
+                for sq in c { if d.pl[sq] == b'.' && sq != e && sq != victim && sq != origin && !(k == b'k' && (0..64).any(|x| d.pl[x] == b'K' && adjacent(x, sq))) { d.pl[sq] = k; break } }
+            }
+            out.push(d);
+        }
+    }
 }
 
 // ---------- G4: exhaustive small-material families ----------
@@ -303,6 +319,58 @@ pub fn family_en_passant(rng: &mut Rng, n: usize, out: &mut Vec<Desc>) {
         if rng.chance(1, 4) { let x = rng.below(64); if d.pl[x] == b'.' && x != 40 + f && x != 48 + f { d.pl[x] = *rng.pick(b"NnBb") } }
         out.push(d.clone());
         out.push(d.flipped());
+    }
+}
+
+/// en-passant captures that uncover a line through the removed pawn: the mover's king and an enemy slider stand on a
+/// diagonal through the victim's square (the capturing pawn does not land on that diagonal), or on the rank of the two
+/// pawns with nothing else between.  Exhaustive over files, capturing side, direction and distances; both colours.
+pub fn family_ep_lines(out: &mut Vec<Desc>) {
+    let on = |r: i32, f: i32| (0..8).contains(&r) && (0..8).contains(&f);
+    for f in 0..8i32 {
+        for df in [-1i32, 1] {
+            let cf = f + df;
+            if !(0..8).contains(&cf) { continue }
+            let mut base = Desc::empty();
+            base.pl[(32 + f) as usize] = b'p';
+            base.pl[(32 + cf) as usize] = b'P';
+            base.ep = Some((40 + f) as u8);
+            let reserved = |sq: i32| sq == 40 + f || sq == 48 + f || sq == 32 + f || sq == 32 + cf;
+            // lines through the victim's square (rank 4, file f): the four diagonals and the two rank directions
+            for (dr, dc) in [(1i32, 1i32), (1, -1), (-1, 1), (-1, -1), (0, 1), (0, -1)] {
+                for kd in 1..8i32 {
+                    let (kr, kf) = (4 + dr * kd, f + dc * kd);
+                    if !on(kr, kf) { break }
+                    let ksq = kr * 8 + kf;
+                    if ksq == 32 + cf && dr == 0 { continue }   // rank case: the king is beyond the capturing pawn
+                    if reserved(ksq) { if dr == 0 { continue } else { break } }
+                    for sd in 1..8i32 {
+                        let (sr, sf) = (4 - dr * sd, f - dc * sd);
+                        if !on(sr, sf) { break }
+                        let ssq = sr * 8 + sf;
+                        if reserved(ssq) { if dr == 0 { continue } else { break } }
+                        // squares strictly between must be empty except the pawns themselves (rank case)
+                        let mut blocked = false;
+                        for t in 1..kd { let q = (4 + dr * t) * 8 + f + dc * t; if reserved(q) && !(dr == 0 && q == 32 + cf) { blocked = true } }
+                        for t in 1..sd { let q = (4 - dr * t) * 8 + f - dc * t; if reserved(q) && !(dr == 0 && q == 32 + cf) { blocked = true } }
+                        if blocked { continue }
+                        for pc in if dr == 0 { &b"rq"[..] } else { &b"bq"[..] } {
+                            let mut d = base.clone();
+                            d.pl[ksq as usize] = b'K';
+                            d.pl[ssq as usize] = *pc;
+                            // a black king far from everything
+                            let mut placed = false;
+                            for bk in [63usize, 56, 7, 0, 59, 60, 3, 4] {
+                                if d.pl[bk] == b'.' && !adjacent(bk, ksq as usize) && !reserved(bk as i32) { d.pl[bk] = b'k'; placed = true; break }
+                            }
+                            if !placed { continue }
+                            out.push(d.clone());
+                            out.push(d.flipped());
+                        }
+                    }
+                }
+            }
+        }
     }
 }
 
